@@ -372,7 +372,7 @@ func (a SmallInt) DivideOverflow(b SmallInt) (result SmallInt, ok bool) {
 		return 0, false
 	}
 	c := a / b
-	return c, (c < 0) == ((a < 0) != (b < 0))
+	return c, c == 0 || (c < 0) == ((a < 0) != (b < 0))
 }
 
 // DivideVal another value and return an error
@@ -422,7 +422,7 @@ func (i SmallInt) DivideBigInt(other *BigInt) (Value, Value) {
 		return Undefined, Ref(NewZeroDivisionError())
 	}
 	iBigInt := big.NewInt(int64(i))
-	iBigInt.Div(iBigInt, other.ToGoBigInt())
+	iBigInt.Quo(iBigInt, other.ToGoBigInt())
 	if iBigInt.IsInt64() {
 		return SmallInt(iBigInt.Int64()).ToValue(), Undefined
 	}
@@ -436,7 +436,7 @@ func (i SmallInt) DivideSmallInt(other SmallInt) (Value, Value) {
 	result, ok := i.DivideOverflow(other)
 	if !ok {
 		iBigInt := big.NewInt(int64(i))
-		return Ref(ToElkBigInt(iBigInt.Div(iBigInt, big.NewInt(int64(other))))), Undefined
+		return Ref(ToElkBigInt(iBigInt.Quo(iBigInt, big.NewInt(int64(other))))), Undefined
 	}
 	return result.ToValue(), Undefined
 }
